@@ -30,25 +30,25 @@ Print Assumptions ord_next_day.
 Example ord_next_day_nonvacuous :
   valid (2023, 2, 28) /\ next_day (2023, 2, 28) = (2023, 3, 1) /\ next_day (2024, 2, 28) = (2024, 2, 29)
   /\ valid (1900, 12, 31) /\ next_day (1900, 12, 31) = (1901, 1, 1).
-Proof. repeat split. Qed.
+Proof. c04_example. Qed.
 
 Theorem ord_of_ord_inverse : forall n, 1 <= n -> ord (of_ord n) = n /\ valid (of_ord n).
 Proof. exact of_ord_spec. Qed.
 Print Assumptions ord_of_ord_inverse.
-Example ord_of_ord_inverse_nonvacuous : 1 <= 738946 /\ of_ord 738946 = (2024, 2, 29).
-Proof. split; [lia | reflexivity]. Qed.
+Example ord_of_ord_inverse_nonvacuous : 1 <= 738945 /\ of_ord 738945 = (2024, 2, 29).
+Proof. c04_example. Qed.
 
 Theorem of_ord_ord_inverse : forall c, valid c -> of_ord (ord c) = c.
 Proof. exact of_ord_ord. Qed.
 Print Assumptions of_ord_ord_inverse.
 Example of_ord_ord_inverse_nonvacuous : valid (2000, 2, 29).
-Proof. reflexivity. Qed.
+Proof. c04_example. Qed.
 
 Theorem ord_injective : forall a b, valid a -> valid b -> ord a = ord b -> a = b.
 Proof. exact ord_inj. Qed.
 Print Assumptions ord_injective.
-Example ord_injective_nonvacuous : valid (2024, 2, 29) /\ valid (of_ord 738946) /\ ord (2024, 2, 29) = ord (of_ord 738946).
-Proof. repeat split. Qed.
+Example ord_injective_nonvacuous : valid (2024, 2, 29) /\ valid (of_ord 738945) /\ ord (2024, 2, 29) = ord (of_ord 738945).
+Proof. c04_example. Qed.
 
 (** the tuple order used by [Instant] comparisons is the order of day numbers *)
 Theorem ord_strictly_monotone : forall a b, valid a -> valid b -> (date_ltb a b = true <-> ord a < ord b).
@@ -60,7 +60,7 @@ Proof. exact ord_le_iff. Qed.
 Print Assumptions ord_monotone.
 Example ord_monotone_nonvacuous :
   valid (1999, 12, 31) /\ valid (2000, 1, 1) /\ date_ltb (1999, 12, 31) (2000, 1, 1) = true.
-Proof. repeat split. Qed.
+Proof. c04_example. Qed.
 
 Theorem add_days_spec : forall c n, valid c -> 1 <= ord c + n ->
   valid (add_days c n) /\ ord (add_days c n) = ord c + n.
@@ -72,7 +72,7 @@ Proof. exact add_days_1. Qed.
 Print Assumptions add_days_one.
 Example add_days_spec_nonvacuous :
   valid (2024, 3, 1) /\ 1 <= ord (2024, 3, 1) + (-1) /\ add_days (2024, 3, 1) (-1) = (2024, 2, 29).
-Proof. split; [reflexivity|]. split; [vm_compute; discriminate | reflexivity]. Qed.
+Proof. c04_example. Qed.
 
 (** ISO weekdays (Monday = 1) repeat with period 7 *)
 Theorem isoweekday_range : forall c, 1 <= isoweekday c <= 7.
@@ -90,7 +90,7 @@ Print Assumptions weekday_period_7.
 Example weekday_period_7_nonvacuous :
   valid (2024, 1, 1) /\ 1 <= ord (2024, 1, 1) + 7 * (-3) /\ isoweekday (2024, 1, 1) = 1
   /\ isoweekday (1, 1, 1) = 1.
-Proof. split; [reflexivity|]. split; [vm_compute; discriminate | split; reflexivity]. Qed.
+Proof. c04_example. Qed.
 
 Theorem start_of_week_spec : forall c, valid c ->
   valid (start_of_week c) /\ isoweekday (start_of_week c) = 1
@@ -98,7 +98,7 @@ Theorem start_of_week_spec : forall c, valid c ->
 Proof. exact CalProofs.start_of_week_spec. Qed.
 Print Assumptions start_of_week_spec.
 Example start_of_week_spec_nonvacuous : valid (2021, 1, 3) /\ start_of_week (2021, 1, 3) = (2020, 12, 28).
-Proof. split; reflexivity. Qed.
+Proof. c04_example. Qed.
 
 (** * 2. Spans: a period is the days from its start to [start + size units] minus one *)
 
@@ -117,7 +117,7 @@ Example stop_spec_nonvacuous :
   wf (Month, (2024, 1, 31), 1) /\ stop (Month, (2024, 1, 31), 1) = (2024, 2, 28)
   /\ wf (Week, (2020, 12, 28), 1) /\ stop (Week, (2020, 12, 28), 1) = (2021, 1, 3)
   /\ wf (Year, (2024, 2, 29), 1) /\ stop (Year, (2024, 2, 29), 1) = (2025, 2, 27).
-Proof. unfold wf; cbn; repeat split; try discriminate; try lia. Qed.
+Proof. c04_example. Qed.
 
 (** the period is non-empty; [stop] is its last day *)
 Theorem stop_is_last_day : forall p, wf p ->
@@ -130,7 +130,7 @@ Theorem days_spec : forall p, wf p -> days p = last_ord p - first_ord p + 1 /\ 1
 Proof. exact PeriodProofs.days_spec. Qed.
 Print Assumptions days_spec.
 Example days_spec_nonvacuous : wf (Year, (2024, 1, 1), 1) /\ days (Year, (2024, 1, 1), 1) = 366.
-Proof. unfold wf; cbn; repeat split; try discriminate; lia. Qed.
+Proof. c04_example. Qed.
 
 (** size expressed in an equal or smaller unit of the same family = number of such
     pieces ([count_in]; [subperiods_tile] below shows there are exactly that many) *)
@@ -141,7 +141,7 @@ Print Assumptions size_in_spec.
 Example size_in_spec_nonvacuous :
   wf (Month, (2023, 12, 1), 3) /\ same_family Month Day = true
   /\ size_in_days (Month, (2023, 12, 1), 3) = Ok 91.
-Proof. unfold wf; cbn; repeat split; try discriminate; lia. Qed.
+Proof. c04_example. Qed.
 
 (** * 3. Containment and intersection are those of the day sets *)
 
@@ -158,7 +158,7 @@ Example contains_spec_nonvacuous :
   wf (Year, (2024, 1, 1), 1) /\ wf (Week, (2024, 12, 30), 1) /\ wf (Month, (2024, 2, 1), 1)
   /\ contains (Year, (2024, 1, 1), 1) (Week, (2024, 12, 30), 1) = false
   /\ contains (Year, (2024, 1, 1), 1) (Month, (2024, 2, 1), 1) = true.
-Proof. unfold wf; cbn; repeat split; try discriminate; lia. Qed.
+Proof. c04_example. Qed.
 
 (** [intersection p a b] ([None] bound = open on that side, [a <= b]): the result
     denotes exactly the days of [p] within [a, b] - through its own re-derived unit and
@@ -178,7 +178,7 @@ Example intersection_spec_nonvacuous :
   wf p /\ valid (2023, 12, 1) /\ valid (2024, 2, 29) /\ ord (2023, 12, 1) <= ord (2024, 2, 29)
   /\ intersection p (Some (2023, 12, 1)) (Some (2024, 2, 29)) = Some (Month, (2023, 12, 1), 3)
   /\ intersection p (Some (2025, 1, 1)) (Some (2025, 1, 2)) = None.
-Proof. unfold wf; cbn; repeat split; try discriminate; lia. Qed.
+Proof. c04_example. Qed.
 
 (** * 4. Sub-periods tile the period *)
 
@@ -203,7 +203,7 @@ Example subperiods_tile_nonvacuous :
   /\ subperiods (Week, (2024, 12, 30), 2) Week = Ok [(Week, (2024, 12, 30), 1); (Week, (2025, 1, 6), 1)]
   /\ wf (Year, (2023, 1, 1), 2) /\ same_family Year Month = true /\ aligned Month (2023, 1, 1)
   /\ rmap (@length _) (subperiods (Year, (2023, 1, 1), 2) Month) = Ok 24%nat.
-Proof. unfold wf; repeat split; try discriminate; try reflexivity; cbn; lia. Qed.
+Proof. c04_example. Qed.
 
 (** * 5. Shifting by n units, then by -n units *)
 
@@ -224,7 +224,7 @@ Example offset_inverse_days_nonvacuous :
   let p := (Month, (2024, 1, 31), 1) in
   valid (p_start p) /\ eff_unit p (Some Week) = Week /\ 1 <= ord (p_start p) + days_of Week (-5)
   /\ offset p (-5) (Some Week) = Ok (Month, (2023, 12, 27), 1).
-Proof. cbn; repeat split; lia. Qed.
+Proof. c04_example. Qed.
 
 (** month and year shifts are undone exactly when the first shift does not clip the
     day-of-month ([no_clip]: day <= length of the target month) *)
@@ -244,7 +244,7 @@ Example offset_inverse_months_nonvacuous :
   /\ no_clip (p_start p) 2 /\ ~ no_clip (p_start p) 1
   /\ offset p 1 (Some Month) = Ok (Day, (2024, 2, 29), 1)
   /\ offset (Day, (2024, 2, 29), 1) (-1) (Some Month) = Ok (Day, (2024, 1, 29), 1).
-Proof. cbn; repeat split; lia. Qed.
+Proof. c04_example. Qed.
 
 (** * 6. Named reference periods, relative to the start (y, m, d) of the period *)
 
@@ -278,7 +278,7 @@ Theorem last_month_spec : forall u y m d n, 1 <= m <= 12 ->
 Proof. exact PeriodMoreProofs.last_month_spec. Qed.
 Print Assumptions last_month_spec.
 Example last_month_spec_nonvacuous : last_month (Year, (2024, 1, 15), 1) = Ok (Month, (2023, 12, 1), 1).
-Proof. reflexivity. Qed.
+Proof. c04_example. Qed.
 
 (** the three whole months ending the day before the start's month begins *)
 Theorem last_3_months_spec : forall u y m d n, 1 <= m <= 12 ->
@@ -288,7 +288,7 @@ Theorem last_3_months_spec : forall u y m d n, 1 <= m <= 12 ->
 Proof. exact PeriodMoreProofs.last_3_months_spec. Qed.
 Print Assumptions last_3_months_spec.
 Example last_3_months_spec_nonvacuous : last_3_months (Day, (2024, 2, 29), 1) = Ok (Month, (2023, 11, 1), 3).
-Proof. reflexivity. Qed.
+Proof. c04_example. Qed.
 
 (** the ISO week (Monday to Sunday) containing the start *)
 Theorem first_week_spec : forall p, valid (p_start p) ->
@@ -297,7 +297,7 @@ Theorem first_week_spec : forall p, valid (p_start p) ->
 Proof. exact PeriodMoreProofs.first_week_spec. Qed.
 Print Assumptions first_week_spec.
 Example first_week_spec_nonvacuous : first_week (Day, (2021, 1, 3), 1) = Ok (Week, (2020, 12, 28), 1).
-Proof. reflexivity. Qed.
+Proof. c04_example. Qed.
 
 (** last_week (1 week, 1 back), last_fortnight (1, 2), last_2_weeks (2, 2),
     last_26_weeks (26, 26), last_52_weeks (52, 52): [sz] weeks starting on the Monday
@@ -313,4 +313,4 @@ Print Assumptions last_weeks_spec.
 Example last_weeks_spec_nonvacuous :
   valid (2021, 1, 3) /\ 1 <= ord (start_of_week (2021, 1, 3)) - 7 * 52
   /\ last_52_weeks (Day, (2021, 1, 3), 1) = Ok (Week, (2019, 12, 30), 52).
-Proof. split; [reflexivity|]. split; [vm_compute; discriminate | reflexivity]. Qed.
+Proof. c04_example. Qed.
